@@ -482,7 +482,7 @@ class Program(object):
                 if loop and gflat.entry != gflat.exit:
                     # zero or more executions: a header that either enters the body or goes on; the body's returns come back to it
                     hdr_id = base_hi + span * 0.02
-                    mk(hdr_id, [], [idmap[gflat.entry], rest_id], {"k": "while", "cond": "<elements left>", "synthetic": True, "l": call.get("l")}, None)
+                    mk(hdr_id, [], [idmap[gflat.entry], rest_id], {"k": "while", "cond": "<elements of %s>" % (call.get("t") or "")[:80], "refs": list(call.get("refs") or []), "synthetic": True, "l": call.get("l")}, None)
                     cur.succs = [hdr_id]
                     for cb in nf.blocks.values():
                         if cb.id in idmap.values():
